@@ -707,6 +707,18 @@ pub fn probetz(a: &Args) {
     let s = a.rest.get(0).cloned().unwrap_or_default();
     let r = guard(|| TimeZone::posix(&s).map(|tz| format!("{tz:?}")));
     println!("{r:?}");
+    // further arguments: civil datetimes; print how each resolves and what the instant says
+    if let Ok(tz) = TimeZone::posix(&s) {
+        for d in a.rest.iter().skip(1) {
+            let Ok(dt) = d.parse::<jiff::civil::DateTime>() else { continue };
+            let amb = tz.to_ambiguous_zoned(dt);
+            println!("{dt}: {:?}", amb.offset());
+            if let Ok(z) = amb.compatible() {
+                println!("  compatible = {z}  ts={} info={:?}", z.timestamp(), tz.to_offset_info(z.timestamp()));
+                println!("  +0s = {:?}", z.checked_add(jiff::Span::new()).map(|x| x.to_string()));
+            }
+        }
+    }
 }
 
 /// jv probetzif HEXFILE: both TZif readers on the bytes in the file (hex).
